@@ -345,6 +345,21 @@ theorem alive_reply_ignores_client (cfg : Cfg) (s : Sys) (w : Wire) (cl : Client
     (deliver cfg { s with client := cl } w).out = (deliver cfg s w).out := by
   simp [deliver_out]
 
+/-- why `queues_unbounded` is an obligation: with a read queue of capacity 2, three data frames of another tester
+    followed by an alive check, arriving while the client is idle, leave the reader task suspended in `put()` with the
+    alive check unread and unanswered; the unbounded queue of the code answers it at once.  And a write that skipped
+    three frames before its ack puts three frames back: more than such a queue could take (`put_nowait` would raise
+    `QueueFull`). -/
+theorem bounded_queue_starves_alive_check :
+    let cfg : Cfg := ⟨0xf4, 0x10, 1000⟩
+    let burst := encodeWire (.full cwData 0x10 0xf5 [1]) ++ encodeWire (.full cwData 0x10 0xf5 [2]) ++
+      encodeWire (.full cwData 0x10 0xf5 [3])
+    (settleBounded 2 cfg (asyncioYields true) { buf := burst ++ encodeWire (.full cwAlive 0 0 []) }).out = [] ∧
+    (settle cfg (asyncioYields true) { buf := burst ++ encodeWire (.full cwAlive 0 0 []) }).out = [(0, aliveReply cfg)] ∧
+    (exec cfg (asyncioYields true) {}
+      [.write [0x3e, 0x00] none, .feed (burst ++ encodeWire (.full cwAck 0xf4 0x10 [0x3e, 0x00]))]).queue.length = 3 := by
+  decide +kernel
+
 /-! ### error control words -/
 
 /-- every control word other than data, ack and alive check — with or without address header, any length — is
